@@ -26,7 +26,12 @@ META = {
     "multi-line constructs (comment, raw, string literal, expression, tag; own line or glued to the fault line) x 7 "
     "fault forms (1 863 680 cases).  Space B (compiler/debug-centric): 30 nesting contexts (blocks, overridden blocks, super(), macros, "
     "call blocks, loops, filtered loops, conditionals, set/filter blocks, includes, imports, parents, two-level nestings) x positions "
-    "x 2 line-break forms x 4 flag settings (trim+lstrip, enable_async) x 4 whitespace settings x 3 preceding constructs x 10 fault forms x 2 filler kinds (constant-folded / variable; 1 152 000 cases).  "
+    "x 2 line-break forms x 4 flag settings (trim+lstrip, enable_async) x 4 whitespace settings x 3 preceding constructs x 10 fault forms x 2 filler kinds (constant-folded / variable; 1 152 000 cases).  Space C (expression / tag-argument faults): 9 contexts x "
+    "positions x 45 forms with the raising call as an operand of every operator, comparison, conditional arm, filter / test argument, "
+    "literal item, subscript and call argument directly in an output tag, plus 22 forms with the raising call in the tag that opens a "
+    "construct or branch (elif condition, else / for-else body, loop filter, macro and call-block defaults, call argument, with / "
+    "set values, filter-block and set-block filter arguments, include / import target, autoescape argument) x sync/async x 2 "
+    "preceding constructs x 2 filler kinds (24 120 quick, 1 157 760 thorough).  "
     "Runtime faults: the innermost traceback frame whose code filename is a template filename must be (file of the "
     "fault, line of the fault) and the exception must be the very object raised.  Syntax faults: TemplateSyntaxError "
     "lineno/name/filename and the synthetic traceback frame must be that position.",
@@ -103,6 +108,52 @@ FAULTS = {
     "syn-expr-split": ("syntax", ["{{{L} 1 +", "{R}}}"], 1),
     "syn-tag-split": ("syntax", ["{%{L}", "nosuchtag {R}%}"], 1),
 }
+
+# space C, part 1: the raising call as an operand of every kind of expression node,
+# directly in an output tag (the outermost node of the output child varies)
+_EXPRS = {
+    "concat-r": "'a' ~ boom()", "concat-l": "boom() ~ 'a'", "concat-3": "'a' ~ 1 ~ boom()", "add": "1 + boom()", "sub": "boom() - 1",
+    "mul": "2 * boom()", "div": "boom() / 2", "floordiv": "4 // boom()", "mod": "boom() % 2", "pow": "2 ** boom()",
+    "neg": "-boom()", "pos": "+boom()", "not": "not boom()", "and": "true and boom()", "or": "false or boom()",
+    "lt": "1 < boom()", "eq": "boom() == 1", "chain": "1 < 2 <= boom()", "in": "1 in boom()", "notin": "boom() not in [1]",
+    "cond-test": "1 if boom() else 2", "cond-then": "boom() if true else 2", "cond-else": "1 if false else boom()",
+    "cond-noelse": "boom() if true", "filter-arg": "1|default(boom())", "filter-kwarg": "1|default(default_value=boom())",
+    "filter-base": "boom()|upper", "filter-chain": "1|string|default(boom())|upper", "test-arg": "1 is divisibleby(boom())",
+    "test-base": "boom() is defined", "test-not": "1 is not sameas(boom())", "list": "[1, boom()]", "tuple": "(1, boom())",
+    "dict-value": "{'k': boom()}", "dict-key": "{boom(): 1}", "getattr": "boom().a", "getitem-base": "boom()[0]",
+    "getitem-arg": "[1][boom()]", "slice": "[1][boom():]", "call-arg": "range(boom())", "call-kwarg": "dict(k=boom())",
+    "call-star": "range(*boom())", "call-result": "boom()()", "paren": "(boom())", "nested": "('a' ~ (1 + boom()))|upper",
+}
+for _k, _e in _EXPRS.items():
+    FAULTS["x-" + _k] = ("runtime", ["{{{L} " + _e + " {R}}}"], 0)
+
+# space C, part 2: the raising call inside the tag that opens a construct or a branch, each on its own line
+FAULTS.update({
+    "t-elif-cond": ("runtime", ["{% if false %}", "a", "{%{L} elif boom() {R}%}", "b", "{% endif %}"], 2),
+    "t-elif2-cond": ("runtime", ["{% if false %}", "a", "{% elif false %}", "b", "{%{L} elif boom() {R}%}", "c", "{% else %}", "d", "{% endif %}"], 4),
+    "t-elif-cond-expr": ("runtime", ["{% if false %}", "a", "{%{L} elif 1 < boom() {R}%}", "b", "{% endif %}"], 2),
+    "t-elif-body": ("runtime", ["{% if false %}", "a", "{% elif true %}", "{{{L} boom() {R}}}", "{% endif %}"], 3),
+    "t-else-body": ("runtime", ["{% if false %}", "a", "{% else %}", "{{{L} boom() {R}}}", "{% endif %}"], 3),
+    "t-for-else-body": ("runtime", ["{% for j in [] %}", "a", "{% else %}", "{{{L} boom() {R}}}", "{% endfor %}"], 3),
+    "t-loop-filter": ("runtime", ["{%{L} for j in [1] if boom() {R}%}", "a", "{% endfor %}"], 0),
+    "t-loop-filter-after": ("runtime", ["{% set q = 1 %}", "{%{L} for j in [1] if j and boom() {R}%}", "a", "{% endfor %}"], 1),
+    "t-macro-default": ("runtime", ["{%{L} macro q(a=boom()) {R}%}", "x", "{% endmacro %}", "{{ q() }}"], 0),
+    "t-call-arg": ("runtime", ["{% macro q(a) %}{{ caller() }}{% endmacro %}", "{%{L} call q(boom()) {R}%}", "x", "{% endcall %}"], 1),
+    "t-call-default": ("runtime", ["{% macro q() %}{{ caller() }}{% endmacro %}", "{%{L} call(a=boom()) q() {R}%}", "x", "{% endcall %}"], 1),
+    "t-with-value": ("runtime", ["{% set q = 1 %}", "{%{L} with w = boom() {R}%}", "x", "{% endwith %}"], 1),
+    "t-with-value2": ("runtime", ["{%{L} with v = 1, w = boom() {R}%}", "x", "{% endwith %}"], 0),
+    "t-set-value": ("runtime", ["{% set q = 1 %}", "{%{L} set z = 'a' ~ boom() {R}%}"], 1),
+    "t-set-tuple": ("runtime", ["{% set q = 1 %}", "{%{L} set y, z = 1, boom() {R}%}"], 1),
+    "t-filter-block-arg": ("runtime", ["{% set q = 1 %}", "{%{L} filter default(boom()) {R}%}", "x", "{% endfilter %}"], 1),
+    "t-set-block-filter-arg": ("runtime", ["{% set q = 1 %}", "{%{L} set z | default(boom()) {R}%}", "x", "{% endset %}"], 1),
+    "t-include-target": ("runtime", ["{% set q = 1 %}", "{%{L} include boom() {R}%}"], 1),
+    "t-import-target": ("runtime", ["{% set q = 1 %}", "{%{L} import boom() as mm {R}%}"], 1),
+    "t-for-iter-after": ("runtime", ["{% if true %}", "a", "{% endif %}", "{%{L} for j in boom() {R}%}", "{% endfor %}"], 3),
+    "t-if-cond-after": ("runtime", ["{% for j in [1] %}", "a", "{% endfor %}", "{%{L} if boom() {R}%}", "b", "{% endif %}"], 3),
+    "t-autoescape-arg": ("runtime", ["{% set q = 1 %}", "{%{L} autoescape boom() {R}%}", "x", "{% endautoescape %}"], 1),
+})
+FAULTS_C = [k for k in FAULTS if k.startswith(("x-", "t-"))]
+CONTEXTS_C = ["top", "block", "for", "macro", "if", "for-filter", "include", "child-block", "call"]
 
 FN = "/c35/%s.html"
 
@@ -368,7 +419,13 @@ def shard(arg):
             p.sig((ctx, fault, pre, exp[2]))
         if obs != exp:
             what = classify(exp, obs)
-            p.violation(f"C35/{kind}/{what}/{ctx}/{fault}/{pre}", {
+            if fault.startswith(("x-", "t-")):
+                # operand / tag-argument faults: the fault form names the construct; context, offset and
+                # preceding construct only say where the previous mapped line happened to be
+                sig = f"C35/{kind}/{what.split('/')[0]}/{fault}"
+            else:
+                sig = f"C35/{kind}/{what}/{ctx}/{fault}/{pre}"
+            p.violation(sig, {
                 "msg": f"case {case!r}: expected {exp!r}, observed {obs!r}; sources {srcs!r}",
                 "case": list(case), "sources": srcs, "expected": list(exp), "observed": list(obs),
                 "script": _script(case, srcs, None),
@@ -405,14 +462,19 @@ def space(quick):
               ["const", "var"]]
     shards = []
     counts = []
-    for dims, nhead in ((dims_a, 3), (dims_b, 2)):
+    if quick:
+        dims_c = [CONTEXTS_C, pos, ["lf"], ["", "a"], [("", "", "", "")], ["none", "comment3-"], FAULTS_C, ["const", "var"]]
+    else:
+        dims_c = [CONTEXTS_C, pos, ["lf", "mixed"], ["", "tl", "a", "atl"], [("", "", "", ""), ("-", "-", "-", "-")],
+                  ["none", "comment3-", "raw-"], FAULTS_C, ["const", "var"]]
+    for dims, nhead in ((dims_a, 3), (dims_b, 2), (dims_c, 2)):
         n = 1
         for d in dims:
             n *= len(d)
         counts.append(n)
         for head in itertools.product(*dims[:nhead]):
             shards.append((head, dims[nhead:]))
-    return shards, counts[0], counts[1]
+    return shards, counts[0], counts[1], counts[2]
 
 
 def run(ctx: core.Ctx):
@@ -426,14 +488,15 @@ def run(ctx: core.Ctx):
         "the expected position is the index of the fault's line in the list of lines the template was joined from (line breaks: \\n, \\r\\n, \\r)",
         "templates are served by a FunctionLoader that gives each template its own file name; 'template frame' = traceback frame whose code filename is one of these names",
         "runtime faults are single-line constructs whose tag starts on the line of the raising call; two syntax fault forms put the offending token on the line after the tag start and expect that line",
+        "space C signatures name the fault form only (C35/runtime/wrong-line/<form>): the context and the distance to the previously mapped line are not part of the defect",
         "space A uses 4 contexts with all whitespace/flag/line-break/preceding-construct combinations (synchronous environments); space B uses all contexts with a reduced set of the other dimensions, each also with enable_async=True (Template.render drives render_async through asyncio.run)",
     ]
-    shards, na, nb = space(ctx.quick)
-    ctx.cov["bounds"] = {"skeleton_lines": [2, 3 if ctx.quick else 6], "cases_space_A": na, "cases_space_B": nb,
+    shards, na, nb, nc = space(ctx.quick)
+    ctx.cov["bounds"] = {"skeleton_lines": [2, 3 if ctx.quick else 6], "cases_space_A": na, "cases_space_B": nb, "cases_space_C": nc,
                          "contexts": len(CONTEXTS), "preceding_constructs": len(PRE), "fault_forms": len(FAULTS),
                          "line_break_forms": len(BREAKS)}
     ctx.pmap(shard, shards)
-    if ctx.evals != na + nb:
-        raise core.HarnessError(f"enumerated {ctx.evals} cases, expected {na + nb}")
+    if ctx.evals != na + nb + nc:
+        raise core.HarnessError(f"enumerated {ctx.evals} cases, expected {na + nb + nc}")
     if len(ctx.sigs) < 2:
         raise core.HarnessError("faults did not fire")
